@@ -28,6 +28,7 @@ SCENARIOS = [
     ("S7-metadata", [("call", "f_str", 1), ("putmeta", "f_str", 1, False), ("putmeta", "f_str", 1, True)]),
     ("S8-two-args", [("call", "f_str", 1), ("call", "f_str", 2)]),
     ("S9-none-and-part-share", [("call", "f_none", 1), ("call", "f_same_a", 1), ("call", "f_part", 1)]),
+    ("S10-oversize-for-cache", [("call", "f_big", 1)]),
 ]
 
 
@@ -191,7 +192,9 @@ def fault_case(args):
     os.makedirs(root)
     out = {"evaluations": 1, "transitions": 1, "traces": 1, "violations": [], "outcomes": []}
     try:
-        code1, pay1 = child(root, cache, steps, {idx: kind}, 0)
+        # a reported error leaves the process alive: it keeps calling (three more calls of everything) before the restart
+        later = phase2_steps(steps) if not kind.startswith("crash") else []
+        code1, pay1 = child(root, cache, steps + later, {idx: kind}, 0)
         crashed = code1 == CRASH_EXIT
         if code1 not in (0, CRASH_EXIT):
             raise HarnessError("phase-1 child died unexpectedly (exit %s) in %s fault %s@%d" % (code1, name, kind, idx))
@@ -205,8 +208,8 @@ def fault_case(args):
         bad = None
         if not crashed:
             # the process survived an injected error: callers must not see it
-            res = [r for r in pay1["results"] if r[0][0] == "call"]
-            bad = judge_phase(res, "same-process", False)
+            res = [r for r in pay1["results"][:len(steps)] if r[0][0] == "call"]
+            bad = judge_phase(res, "same-process", False) or judge_phase(pay1["results"][len(steps):], "same-process-later", True)
         p2 = phase2_steps(steps)
         if bad is None and second is None:
             code2, pay2 = child(root, cache, p2, {}, 1000)
